@@ -179,6 +179,28 @@ func upperBounded(facts core.FactSet, idx, x *core.Term, inclusive bool) (string
 			return f.Key(), true
 		}
 	}
+	// idx < len(y) together with len(x) == len(y)
+	for _, f := range facts {
+		if f.Kind != "cmp" {
+			continue
+		}
+		var other string
+		a, b, op := f.A.String(), f.B.String(), f.Op
+		switch {
+		case a == is && (op == "<" || (inclusive && op == "<=")) && strings.HasPrefix(b, "len("):
+			other = b
+		case b == is && (op == ">" || (inclusive && op == ">=")) && strings.HasPrefix(a, "len("):
+			other = a
+		}
+		if other == "" {
+			continue
+		}
+		for _, g := range facts {
+			if g.Kind == "cmp" && g.Op == "==" && ((g.A.String() == xs && g.B.String() == other) || (g.B.String() == xs && g.A.String() == other)) {
+				return f.Key() + " ∧ " + g.Key(), true
+			}
+		}
+	}
 	// constant index against a length fact
 	if idx.Op == "const" {
 		var k int64
@@ -880,6 +902,14 @@ func (r *Run) mayNilField(ff *core.FnFacts, facts core.FactSet, v ssa.Value, fv 
 	switch x := v.(type) {
 	case *ssa.Alloc:
 		n := 0
+		// a field that is only assigned on some paths may still hold its zero value
+		definite := false
+		prefix := "stored(" + ff.TB.Of(x).String() + "." + fv.Name() + ","
+		for k := range facts {
+			if strings.HasPrefix(k, prefix) {
+				definite = true
+			}
+		}
 		if refs := x.Referrers(); refs != nil {
 			for _, rf := range *refs {
 				fa, ok := rf.(*ssa.FieldAddr)
@@ -897,6 +927,9 @@ func (r *Run) mayNilField(ff *core.FnFacts, facts core.FactSet, v ssa.Value, fv 
 					}
 				}
 			}
+		}
+		if n > 0 && !definite {
+			return true // assigned only conditionally
 		}
 		return n == 0 // never assigned: zero value
 	case *ssa.Extract:
